@@ -1,7 +1,8 @@
-SPECIFICATION Spec
+INIT Init
+NEXT ExpNext
 CONSTANTS
   U = "quick"
-  Kind = "list"
+  Kind = "obj"
   InitPartial = FALSE
   Mirror = FALSE
   MaxLevel = 40
@@ -9,7 +10,3 @@ CONSTANTS
   Avoid = FALSE
   SimK = 1
   Acts = {"dset", "oset", "rebind", "ddel", "batch", "lset", "ldel", "slice", "lins", "inplace"}
-CONSTRAINT LevelBound
-INVARIANT Conforms
-INVARIANT AltsConform
-PROPERTY RejectedWriteNoStore
